@@ -3,6 +3,7 @@ import PysamlModel.Model.Sp
 import PysamlModel.Spec.Sp
 import PysamlModel.Gen.StatusCodes
 import PysamlModel.Model.SpAttr
+import PysamlModel.Model.SpFactory
 open Lean Proto Sp
 
 def parseSig (s : String) : Sig :=
@@ -130,11 +131,17 @@ def handle (line : Json) : Json :=
   -- on that path the code applies none of the three signature options (Model/SpAttr.lean, `attrCfg`); C01's
   -- statement is about authentication responses, so for attribute answers the specification is evaluated with the
   -- options the code applies there: every signature present must still verify
-  let opts : SigOpts := if isAttr then { wantResp := some false, wantAssert := some false, wantEither := some false } else opts0
+  let opts : SigOpts := if isAttr then { wantResp := some false, wantAssert := some false, wantEither := some false }
+    else if strD envJ "kind" == "factory" then
+      -- the factory has no parameter for two of the three options: the specification is evaluated with what it applies
+      { wantResp := some false, wantAssert := some (opts0.wantAssert.getD false), wantEither := some false }
+    else opts0
   let cfg := if isAttr then attrCfg cfg0 else cfg0
   let env := if isAttr then attrEnv env0 else env0
   let r := if isAttr then attrView r0 else r0
-  let m := if isAttr then processAttr cfg0 env0 r0 else process cfg env r
+  -- the factory entry point (`saml2.response.authn_response` + loads + verify): Model/SpFactory.lean
+  let isFactory := strD envJ "kind" == "factory"
+  let m := if isAttr then processAttr cfg0 env0 r0 else if isFactory then processFactory cfg env r else process cfg env r
   let io := parseOutcome impl
   -- the configuration the PROPERTY talks about: options resolved with the property's defaults
   let cfgP : Cfg := { cfg with wantResp := opts.wantResp.getD true, wantAssert := opts.wantAssert.getD false,
